@@ -137,26 +137,34 @@ def cases(tier, rng):
     # 1. (dividend degree, divisor degree) around (4d, d): the x4 rule of `reduce`, the domain-length thresholds of fast_reduce
     D = [1, 2, 127, 128, 129, 255, 256, 257, 511, 512, 513] + ([1023, 1024, 1025] if big else [])
     for d in D:
+        heavy = d >= 255 and not big          # the extracted model costs ~3 us per coefficient step: thin out the quick tier
+        # quick tier, heavy degrees: (d, dividend degree) -> operation
+        HEAVY = {(255, 4 * 255 + 1): "reduce", (256, 4 * 256): "reduce", (256, 4 * 256 + 1): "reduce", (256, 4 * 256 - 1): "divide",
+                 (257, 4 * 257 + 1): "fast_reduce", (257, 4 * 257): "reduce", (511, 4 * 511 + 1): "reduce", (512, 4 * 512): "reduce",
+                 (512, 4 * 512 + 1): "reduce", (513, 4 * 513): "reduce"}
         for da in (4 * d - 1, 4 * d, 4 * d + 1):
             a, m = poly(rng, "b", da), poly(rng, "b", d)
-            binop("grid-4d", "divide", "b", a, m)
+            if heavy:
+                if (d, da) in HEAVY:
+                    binop("grid-4d", HEAVY[(d, da)], "b", a, m)
+                continue
             binop("grid-4d", "reduce", "b", a, m)
-            if d < 255 or da == 4 * d + 1 or big:
-                binop("grid-4d", "fast_reduce", "b", a, m)
+            binop("grid-4d", "divide", "b", a, m)
+            binop("grid-4d", "fast_reduce", "b", a, m)
         # monic divisor, near-equal degrees
         mm = bl(rpoly(rng, d, monic=True))
         for da in (d - 1, d, d + 1, 2 * d):
             binop("grid-near", "divide", "b", poly(rng, "b", da), mm)
         binop("grid-near", "rem", "b", poly(rng, "b", 2 * d + 1), mm)
         binop("grid-near", "div", "b", poly(rng, "b", 2 * d + 1), poly(rng, "b", d))
-        if d <= (129 if not big else 257):
+        if d <= 2 or d == 128 or (big and d <= 257):
             a, m = poly(rng, "x", 4 * d + 1, d > 2), poly(rng, "x", d)
             binop("grid-4d-x", "divide", "x", a, m)
             binop("grid-4d-x", "reduce", "x", a, m)
             binop("grid-4d-x", "reduce", "x", poly(rng, "x", 4 * d, d > 2), m)
     # 2. all three stages of fast_reduce: small moduli (structured stage runs when 4*deg < remaining degree), long numerators
     for d in (1, 2, 3, 10, 63, 64, 65):
-        for da in (4 * d + 1, 255, 256, 257, 300, 1000) + ((5000,) if big else ()):
+        for da in (4 * d + 1, 256, 300, 1000) + ((255, 257, 5000) if big else ()):
             if da <= 4 * d:
                 continue
             a, m = poly(rng, "b", da), poly(rng, "b", d)
@@ -203,10 +211,10 @@ def cases(tier, rng):
     def clean(k, dv, q, ka=0, kb=0):
         binop(k, "clean_divide", "b", bl(pmul(dv, q)), bl(dv), ka, kb)
 
+    DQ = {511: (0, 88, 513), 512: (0, 1, 511, 512, 1536), 513: (0, 510, 511), 600: (1, 423, 424)}
     for d in (1, 2, 100, 511, 512, 513, 600):
-        for dq in ((0, 1, 5, d) if d < 511 else (0, 1, 88, 511, 512, 513, 1024 - d, 1023 - d) + ((3 * d,) if (d == 512 or big) else ())):
-            if dq < 0:
-                continue
+        dqs = (0, 1, 5, d) if d < 511 else DQ[d] + ((88, 1024, 3 * d) if big else ())
+        for dq in dqs:
             clean("clean-divide", rpoly(rng, d), rpoly(rng, dq, sparse=dq > 100))
         clean("clean-divide", rpoly(rng, d, monic=True), rpoly(rng, 3), 2, 1)
         # root 0 in the divisor (removed by hand in the NTT arm), also a double root
@@ -214,16 +222,22 @@ def cases(tier, rng):
         if d >= 2:
             clean("clean-divide-root0", [0, 0] + rpoly(rng, d - 2), [0] + rpoly(rng, 6))
     # zero dividend / zero divisor / constant divisor
-    binop("clean-divide-degenerate", "clean_divide", "b", [], bl(rpoly(rng, 3)))
-    binop("clean-divide-degenerate", "clean_divide", "b", [], bl(rpoly(rng, 600)))
-    binop("clean-divide-degenerate", "clean_divide", "b", [], bl(rpoly(rng, 600)), 3, 0)
+    binop("clean-divide-degenerate", "clean_divide", "b", [], bl([7] + rpoly(rng, 2)))
+    binop("clean-divide-degenerate", "clean_divide", "b", [], bl([7] + rpoly(rng, 599)))
+    binop("clean-divide-degenerate", "clean_divide", "b", [], bl([7] + rpoly(rng, 599)), 3, 0)
     binop("clean-divide-degenerate", "clean_divide", "b", bl(rpoly(rng, 5)), [])
     binop("clean-divide-degenerate", "clean_divide", "b", bl(rpoly(rng, 5)), [], 0, 2)
     binop("clean-divide-degenerate", "clean_divide", "b", [], [])
     binop("clean-divide-degenerate", "clean_divide", "b", bl(rpoly(rng, 5)), bl([7]))
+    # zero dividend against a divisor with root 0: Polynomial::zero() stores no coefficient (`dividend_coefficients[0]`)
+    for d in (3, 511, 512, 600):
+        dv = bl([0] + rpoly(rng, d - 1))
+        for ka in (0, 1, 3):
+            binop("clean-divide-zero-dividend-root0", "clean_divide", "b", [], dv, ka, 0)
+        binop("clean-divide-zero-dividend-root0", "clean_divide", "b", [], bl([0, 0] + rpoly(rng, d - 2)))
     # 6. divisors vanishing on the evaluation coset offset * <w_order>, offset = the extension element x:
     #    multiples of X^3 - w^(2i) X + w^(3i); order = next_power_of_two(deg dividend + 1) (after removal of a root 0)
-    for (d, dq) in ((3, 1), (5, 10), (100, 27), (511, 90), (512, 90), (602, 200), (513, 1023 - 513), (600, 1100)):
+    for (d, dq) in ((3, 1), (5, 10), (100, 27), (511, 90), (512, 90), (602, 200), (513, 1023 - 513)) + (((600, 1100),) if big else ()):
         order = npo2(d + dq + 1)
         for i in sorted({0, 1, order // 2, order - 1}):
             if d >= 511 and i not in (0, 1) and not big and d != 602:
@@ -242,11 +256,11 @@ def cases(tier, rng):
     for f in ("b", "x"):
         for n in precs:
             for sd in (0, 1, 2, 3):
-                if f == "x" and n == 1000 and sd == 3 and not big:
+                if f == "x" and not big and ((n == 1000 and sd >= 2) or (n >= 255 and sd >= 2)):
                     continue
                 nop("fpsi", "fpsi_newton", f, n, poly(rng, f, sd))
             if n <= 257 and f == "b":
-                nop("fpsi", "fpsi_newton", f, n, poly(rng, f, 17 if n > 3 else 40))
+                nop("fpsi", "fpsi_newton", f, n, poly(rng, f, (17 if big else 5) if n > 3 else 40))
             if n <= 3:
                 for sd in (127, 128, 129, 255, 256, 257):
                     if f == "x" and sd > 129 and not big:
@@ -328,4 +342,7 @@ def finding_key(case, impl, model):
     if t and t[0] == "clean_divide" and impl == "PANIC" and model.startswith("SPECDIFF model=PANIC spec=") \
             and model.endswith("why=divisor-vanishes-on-coset"):
         return "clean-divide-root-on-coset"
+    if t and t[0] == "clean_divide" and impl == "PANIC" and model.startswith("SPECDIFF model=PANIC spec=0 ") \
+            and model.endswith("why=empty-dividend-divisor-root0"):
+        return "clean-divide-empty-dividend-root0"
     return None
